@@ -251,6 +251,52 @@ def r17_full_range(text):
     return text, cnt
 
 
+def r19_enumerate(text):
+    """`['l:] for (I, X) in RECV.iter().enumerate() { BODY }` ->
+       `{ let mut I = 0; ['l:] while I < RECV.len() { let X = &RECV[I]; BODY I += 1; } }`
+    (same iteration order and bindings; refused when BODY contains `continue`)."""
+    cnt = 0
+    while True:
+        m, _ = mask(text)
+        mo = re.search(r"(?:('\w+)\s*:\s*)?\bfor\s*\(\s*(\w+)\s*,\s*(\w+)\s*\)\s+in\s+([\w\.\s\(\)\[\]]+?)\s*\.\s*iter\(\)\s*\.\s*enumerate\(\)\s*\{", m)
+        if not mo:
+            break
+        op = mo.end() - 1
+        cl = match_close(m, op)
+        if re.search(r'\bcontinue\b', m[op:cl]):
+            raise ScanError('R19: loop body contains `continue`')
+        label, i, x, recv = mo.group(1), mo.group(2), mo.group(3), re.sub(r'\s+', '', mo.group(4))
+        body = text[op + 1:cl]
+        new = '{ let mut %s = 0; %swhile %s < %s.len() { let %s = &%s[%s];%s %s += 1; } }' % (
+            i, (label + ': ') if label else '', i, recv, x, recv, i, body, i)
+        text = text[:mo.start()] + new + text[cl + 1:]
+        cnt += 1
+    return text, cnt
+
+
+def r20_iter_while(text):
+    """`for X in RECV.iter() { BODY }` -> `{ let mut verif_kN = 0; while verif_kN < RECV.len() { let X = &RECV[verif_kN]; BODY
+    verif_kN += 1; } }` (Verus gives `for` loops with `break` no exit contract; same order and bindings; refused when BODY
+    contains `continue`)."""
+    cnt = 0
+    while True:
+        m, _ = mask(text)
+        mo = re.search(r"\bfor\s+(\w+)\s+in\s+([\w\.\s\(\)\[\]]+?)\s*\.\s*iter\(\)\s*\{", m)
+        if not mo:
+            break
+        op = mo.end() - 1
+        cl = match_close(m, op)
+        if re.search(r'\bcontinue\b', m[op:cl]):
+            raise ScanError('R20: loop body contains `continue`')
+        x, recv = mo.group(1), re.sub(r'\s+', '', mo.group(2))
+        k = 'verif_k%d' % cnt
+        body = text[op + 1:cl]
+        new = '{ let mut %s = 0; while %s < %s.len() { let %s = &%s[%s];%s %s += 1; } }' % (k, k, recv, x, recv, k, body, k)
+        text = text[:mo.start()] + new + text[cl + 1:]
+        cnt += 1
+    return text, cnt
+
+
 def r11_prost_paths(text):
     m, _ = mask(text)
     cnt = 0
@@ -453,6 +499,14 @@ def apply_all(text, extra=()):
             text, c = r10_iter_idioms(text)
             if c:
                 log['R10'] = c
+        if name == 'R20':
+            text, c = r20_iter_while(text)
+            if c:
+                log['R20'] = c
+        if name == 'R19':
+            text, c = r19_enumerate(text)
+            if c:
+                log['R19'] = c
         if name == 'R17':
             text, c = r17_full_range(text)
             if c:
